@@ -5,13 +5,22 @@ with `coords=`, its world components (`Data.get_data(world_cid, view)` →
 `CoordinateComponent._calculate`), and every link in `Data._coordinate_links`
 (`CoordinateComponentLink.compute`).
 
-Numbers: matrix entries, translations and sample points are integers or dyadic rationals, so
-`pixel_to_world_values` is exact in doubles.  `world_to_pixel_values` goes through
-`np.linalg.inv`; every float that comes out of glue is snapped in `snap()` to the nearest
-rational with denominator <= 20000 and must lie within TOL = 1e-9 of it (otherwise the atom
-`inexact` is sent, which every Spec rejects).  The exact results have denominators <= 5184 on the
-generated scope, so the snap is unambiguous.  Floats are never sent; the Lean side compares exact
-rationals.
+Numbers: matrix entries, translations and sample points are integers or dyadic rationals
+(`k * 2**e`), so every input is exactly a double.  Every float that comes out of glue is sent as
+the *exact* rational value of the double (`Fraction(v)`; non-finite -> the atom `nonfinite`,
+which every Spec rejects).  Nothing is rounded, snapped or compared in Python: the Lean driver
+decides, from the exact case alone, how far a double may be from the exact rational value
+(`lean/GlueVerif/Model/C15Float.lean`): forward values must be *exact* whenever every partial
+sum is representable, else within the dot-product bound (n+2) 2^-53 sum|terms|; inverse values
+within 32 * 2^-53 * |N| W |N| |y| where W = P^T|L||U| of Gaussian elimination with partial
+pivoting, computed exactly over Q by the driver.  There is no absolute tolerance anywhere, so the
+rule is as sharp at 1e-300 as at 1e+30.
+
+Magnitude ladder (round-2 strengthening): entries and offsets 2**e for e in LADDER (1e-300 ...
+1e+30), mixed within one matrix - see `ladder_stream`.  `well_conditioned` (generator filter
+only; the verdict is Lean's) mirrors the driver's tolerance so that only coordinate objects are
+generated whose own round trip keeps at least 2^-8 pixel at the grid corner, i.e. matrices
+float64 can invert meaningfully.
 """
 import itertools
 import json
@@ -24,9 +33,6 @@ import numpy as np  # noqa: E402
 from glue.core import Data  # noqa: E402
 from glue.core.coordinates import AffineCoordinates, IdentityCoordinates  # noqa: E402
 from glue.core.coordinate_helpers import dependent_axes  # noqa: E402
-
-TOL = 1e-9
-MAXDEN = 20000
 
 
 # ------------------------------------------------------------------------------------------
@@ -43,19 +49,23 @@ def q_of(x):
     return Fraction(x[0], x[1]) if isinstance(x, (list, tuple)) else Fraction(x)
 
 
-def snap(v):
+def enc(fr):
+    """Fraction -> case encoding"""
+    fr = Fraction(fr)
+    return int(fr) if fr.denominator == 1 else [fr.numerator, fr.denominator]
+
+
+def exact(v):
+    """the exact rational value of a double (no rounding, no tolerance)"""
     v = float(v)
     if not np.isfinite(v):
         return "nonfinite"
-    fr = Fraction(v).limit_denominator(MAXDEN)
-    if abs(float(fr) - v) > TOL:
-        return "inexact"
-    return q_sx(fr)
+    return q_sx(Fraction(v))
 
 
 def canon_arr(a):
     a = np.asarray(a)
-    return [list(a.shape), [snap(v) for v in a.ravel().tolist()]]
+    return [list(a.shape), [exact(v) for v in a.ravel().tolist()]]
 
 
 # ------------------------------------------------------------------------------------------
@@ -210,8 +220,237 @@ def random_dyadic(n, rng):
             rows = [[Fraction(rng.randint(-6, 6), 2) if rng.random() < 0.65 else Fraction(0) for _ in range(3)] for _ in range(3)]
         if det_frac(rows) != 0:
             t = [Fraction(rng.randint(-8, 8), rng.choice([1, 2, 4])) for _ in range(n)]
-            enc = lambda f: int(f) if f.denominator == 1 else [f.numerator, f.denominator]  # noqa: E731
             return aug([[enc(x) for x in r] for r in rows], [enc(x) for x in t])
+
+
+# ------------------------------------------------------------------------------------------
+# magnitude ladder  (round-2 strengthening: scale-dependent tolerances)
+# ------------------------------------------------------------------------------------------
+# 2**e next to 1e-300, 1e-30, 5e-17 (< eps), 1e-12, 6e-11, 1e-10, 1e-8, 6e-8, 1e-6, 1e-5, 1e-3, 1,
+# 1e3, 1e5, 1e8, 1e12, 1e30 - exact doubles, exact rationals for the Lean side.
+LADDER = (-997, -100, -54, -40, -34, -33, -27, -24, -20, -17, -10, 0, 10, 17, 27, 40, 100)
+MIX_LADDER = tuple(e for e in LADDER if e != -997)     # rungs that may be mixed freely in one matrix
+MANT = (1, -1, 3, -3, 5, 1, 1)
+# now and then a mantissa that needs 31 / 53 bits (anything computed or stored in lower precision shows)
+LONG_MANT = (Fraction(2 ** 30 + 1, 2 ** 30), Fraction(-(2 ** 52 + 1), 2 ** 52), Fraction(2 ** 53 - 1, 2 ** 52))
+U53 = Fraction(1, 2 ** 53)
+INV_K = 32                       # = Flt.invK
+TIE = 1 - Fraction(1, 2 ** 30)   # = Flt.tie
+LO, HI = Fraction(1, 2 ** 1000), Fraction(2 ** 1000)
+
+
+def p2(e):
+    return Fraction(2) ** e
+
+
+def exact_inverse(M):
+    """inverse over Q (Gauss-Jordan) or None"""
+    n = len(M)
+    A = [list(r) + [Fraction(int(i == j)) for j in range(n)] for i, r in enumerate(M)]
+    for c in range(n):
+        piv = next((r for r in range(c, n) if A[r][c] != 0), None)
+        if piv is None:
+            return None
+        A[c], A[piv] = A[piv], A[c]
+        pv = A[c][c]
+        A[c] = [x / pv for x in A[c]]
+        for r in range(n):
+            if r != c and A[r][c] != 0:
+                f = A[r][c]
+                A[r] = [a - f * b for a, b in zip(A[r], A[c])]
+    return [r[n:] for r in A]
+
+
+def gepp_w(M):
+    """mirror of Flt.geppW: entrywise max of P^T|L||U| over all (near-)tied partial-pivoting paths"""
+    n = len(M)
+    best = [[Fraction(0)] * n for _ in range(n)]
+
+    def rec(c, rows):
+        if not rows:
+            return True
+        mx = max(abs(r[1][c]) for r in rows)
+        if mx == 0:
+            return False
+        for k, (idx, cur, acc) in enumerate(rows):
+            if abs(cur[c]) < mx * TIE:
+                continue
+            up = [abs(x) for x in cur]
+            w = [a + b for a, b in zip(acc, up)]
+            rest = []
+            for j, (i2, c2, a2) in enumerate(rows):
+                if j == k:
+                    continue
+                f = c2[c] / cur[c]
+                if f != 0:
+                    c2 = [a - f * b for a, b in zip(c2, cur)]
+                    a2 = [a + abs(f) * b for a, b in zip(a2, up)]
+                rest.append((i2, c2, a2))
+            if rec(c + 1, rest):
+                best[idx] = [max(a, b) for a, b in zip(best[idx], w)]
+        return True
+    rec(0, [(i, list(M[i]), [Fraction(0)] * n) for i in range(n)])
+    return best
+
+
+def corner_tolerance(M, corner=4):
+    """mirror of the driver's round-trip tolerance (Flt.invTol with forward tolerances, taken
+    without the exactness shortcut, i.e. an upper bound) at the pixel position (corner, ...);
+    None when singular or out of the binary64 range used."""
+    n = len(M) - 1
+    N = exact_inverse(M)
+    if N is None:
+        return None
+    W = gepp_w(M)
+    r = range(n + 1)
+    NW = [[sum(abs(N[p][k]) * W[k][l] for k in r) for l in r] for p in r]
+    C = [[sum(NW[p][l] * abs(N[l][w]) for l in r) for w in r] for p in r]
+    for mat in (M, N, W, C):
+        for row in mat:
+            for x in row:
+                if x != 0 and not (LO <= abs(x) <= HI):
+                    return None
+    x = [Fraction(corner)] * n + [Fraction(1)]
+    y = [sum(M[k][j] * x[j] for j in r) for k in range(n)]
+    d = [(n + 2) * U53 * sum(abs(M[k][j] * x[j]) for j in r) for k in range(n)]
+    return max(sum(INV_K * U53 * C[p][w] * (abs(y[w]) + d[w]) + abs(N[p][w]) * d[w] for w in range(n))
+               + INV_K * U53 * C[p][n] for p in range(n))
+
+
+def well_conditioned(lin, t):
+    """generator filter (the verdict is Lean's): float64 can invert this meaningfully"""
+    n = len(lin)
+    M = [[Fraction(x) for x in lin[i]] + [Fraction(t[i])] for i in range(n)] + [[Fraction(0)] * n + [Fraction(1)]]
+    tol = corner_tolerance(M)
+    return tol is not None and tol <= Fraction(1, 256)
+
+
+def aug_q(lin, t):
+    return aug([[enc(x) for x in r] for r in lin], [enc(x) for x in t])
+
+
+def ladder_shapes(n, s):
+    """linear parts with the rung `s` placed in every structural role (O(1) entries elsewhere)"""
+    z, o = Fraction(0), Fraction(1)
+    if n == 1:
+        return [("diagonal", [[s]]), ("diagonal", [[-3 * s]])]
+    if n == 2:
+        return [
+            ("diagonal", [[s, z], [z, o]]), ("diagonal", [[o, z], [z, s]]), ("diagonal", [[s, z], [z, -s]]),
+            ("permuted", [[z, s], [o, z]]), ("permuted", [[z, 2 * o], [s, z]]),
+            ("triangular", [[o, s], [z, o]]),            # tiny coupling next to O(1) diagonal
+            ("triangular", [[s, z], [s, s]]), ("triangular", [[s, o], [z, o]]),   # tiny diagonal entry
+            ("coupled", [[o, s], [s, o]]), ("coupled", [[s, o], [o, s]]),
+            ("coupled", [[s, -s], [s, s]]),              # rotation at scale s
+            ("coupled", [[s, -o], [s, o]]),              # one column (pixel axis) at scale s
+            ("coupled", [[s, -s], [o, o]]),              # one row (world axis) at scale s
+            ("coupled", [[3 * s, o], [o, 2 * o]]),
+        ]
+    return [
+        ("diagonal", [[s, z, z], [z, o, z], [z, z, o]]), ("diagonal", [[o, z, z], [z, -o, z], [z, z, s]]),
+        ("diagonal", [[s, z, z], [z, s, z], [z, z, -3 * s]]),
+        ("diagonal", [[-p2(-12), z, z], [z, p2(-12), z], [z, z, s]]),     # spectral cube
+        ("permuted", [[z, z, s], [o, z, z], [z, o, z]]), ("permuted", [[z, s, z], [s, z, z], [z, z, o]]),
+        ("triangular", [[o, s, z], [z, o, s], [z, z, o]]),               # chain of tiny couplings
+        ("triangular", [[s, z, z], [o, s, z], [z, o, s]]),               # tiny diagonal, O(1) chain
+        ("block", [[o, -o, z], [o, o, z], [z, z, s]]), ("block", [[s, -s, z], [s, s, z], [z, z, o]]),
+        ("block", [[o, z, s], [z, o, z], [s, z, -o]]), ("block", [[z, z, s], [o, o, z], [-o, o, z]]),
+        ("coupled", [[s, s, z], [-s, s, s], [z, -s, 3 * s]]), ("coupled", [[o, s, s], [s, o, s], [s, s, o]]),
+        ("coupled", [[s, o, z], [o, s, o], [z, o, s]]), ("coupled", [[s, -o, z], [s, o, o], [s, z, 2 * o]]),
+    ]
+
+
+def ladder_offsets(n, s, rng):
+    """offsets: none; a few pixels' worth; 2**20 and 2**36 pixels' worth (Julian dates, wavelengths
+    far from zero: the world values are huge compared with the step); plus one unrelated rung"""
+    base = [[Fraction(0)] * n, [3 * s] * n, [s * 2 ** 20] + [Fraction(0)] * (n - 1), [-5 * s * 2 ** 36] * n,
+            [s * (2 ** 31 + 1)] * n]
+    if s != p2(-997):
+        base.append([p2(rng.choice(MIX_LADDER)) * rng.choice(MANT) for _ in range(n)])
+    return base
+
+
+def ladder_structured(rng, quick):
+    """every rung in every structural role, dimensions 1-3.  thorough: every (rung, role, offset);
+    quick: every rung with every other role (which half alternates from rung to rung and with the
+    seed) and one offset kind (rotating)."""
+    phase = rng.randrange(2)
+    for ri, e in enumerate(LADDER):
+        if e == 0:
+            continue
+        s = p2(e)
+        for n in (1, 2, 3):
+            for k, (_, lin) in enumerate(ladder_shapes(n, s)):
+                offs = ladder_offsets(n, s, rng)
+                if quick and n > 1 and (ri + k + phase) % 2:
+                    continue
+                for t in ([offs[(ri + k // 2) % len(offs)]] if quick else offs):
+                    if well_conditioned(lin, t):
+                        yield aug_q(lin, t)
+
+
+def ladder_random(rng):
+    """one random matrix with entries m * 2**e, e from 1-3 rungs mixed in the same matrix, in one of
+    the pattern classes; offsets from any rung.  None when float64 cannot invert it meaningfully."""
+    n = rng.choice([1, 2, 2, 3, 3, 3])
+    kind = rng.choice(["diagonal", "permuted", "triangular", "coupled", "block"])
+    exps = rng.sample(MIX_LADDER, rng.choice([1, 2, 2, 3]))
+    long_m = rng.random() < 0.25
+    ent = lambda: (rng.choice(LONG_MANT) if long_m and rng.random() < 0.5 else Fraction(rng.choice(MANT))) * p2(rng.choice(exps))  # noqa: E731
+    A = [[Fraction(0)] * n for _ in range(n)]
+    if kind == "diagonal":
+        for i in range(n):
+            A[i][i] = ent()
+    elif kind == "permuted":
+        perm = list(range(n))
+        rng.shuffle(perm)
+        for i in range(n):
+            A[i][perm[i]] = ent()
+    elif kind == "triangular":
+        up = rng.random() < 0.5
+        for i in range(n):
+            for j in range(n):
+                if i == j or ((i < j) == up and rng.random() < 0.7):
+                    A[i][j] = ent()
+    elif kind == "coupled" or n < 3:
+        for i in range(n):
+            for j in range(n):
+                if rng.random() < 0.8:
+                    A[i][j] = ent()
+    else:
+        lone = rng.randrange(3)
+        pair = [i for i in range(3) if i != lone]
+        A[lone][lone] = ent()
+        for a in pair:
+            for c in pair:
+                A[a][c] = ent()
+        if rng.random() < 0.5:                         # block + permutation of the world axes
+            rng.shuffle(A)
+    scale = min(abs(x) for r in A for x in r if x != 0) if any(x != 0 for r in A for x in r) else Fraction(1)
+    t = [rng.choice([Fraction(0), ent(), scale * rng.choice(MANT) * 2 ** rng.choice([0, 10, 20, 30]),
+                     Fraction(rng.choice(MANT)) * p2(rng.choice(MIX_LADDER))]) for _ in range(n)]
+    if not well_conditioned(A, t):
+        return None
+    return aug_q(A, t)
+
+
+def ladder_stream(tier, rng):
+    quick = tier == "quick"
+    yield from ladder_structured(rng, quick)
+    want, tries = (200 if quick else 2500), 0
+    while want and tries < 40000:
+        tries += 1
+        c = ladder_random(rng)
+        if c is not None:
+            want -= 1
+            yield c
+
+
+def is_ladder(coord):
+    """an affine matrix with an entry or offset outside [2**-8, 2**8]"""
+    if coord[0] != "aff":
+        return False
+    return any(x != 0 and not (Fraction(1, 256) <= abs(x) <= 256) for r in coord[1] for x in map(q_of, r))
 
 
 def coords_stream(tier, rng, n_dims=(1, 2, 3)):
@@ -231,11 +470,13 @@ def coords_stream(tier, rng, n_dims=(1, 2, 3)):
     if 3 in n_dims:
         for m in structured_3d():
             yield aug(m, TRANSLATIONS[3][1])
+    yield from ladder_stream(tier, rng)
+    if 3 in n_dims:
         pool = None
         if not quick:
             pool = list(small_matrices(3))
         yield from block_matrices(rng, 25 if quick else 200)
-        k = 300 if quick else 3000
+        k = 180 if quick else 3000
         for _ in range(k):
             dens = rng.choice([0.34, 0.45, 0.6, 1.0])
             if pool is not None and dens == 1.0:
@@ -248,7 +489,7 @@ def coords_stream(tier, rng, n_dims=(1, 2, 3)):
                     if det_frac(m) != 0:
                         break
             yield aug(m, rng.choice(TRANSLATIONS[3]))
-    for _ in range(200 if quick else 2000):
+    for _ in range(120 if quick else 2000):
         yield random_dyadic(rng.choice(n_dims), rng)
 
 
@@ -347,7 +588,7 @@ class Xform(Family):
         inv = tup(c.world_to_pixel_values(*cols))
 
         def per_point(arrs):
-            return [[snap(arrs[j][k]) for j in range(n)] for k in range(len(pts))]
+            return [[exact(arrs[j][k]) for j in range(n)] for k in range(len(pts))]
         return [corr, deps, per_point(w), per_point(back), per_point(inv)]
 
     def line(self, case, pyout):
@@ -436,7 +677,8 @@ class World(_DataFamily):
         for coord in coords_stream(tier, rng):
             n = coord_ndim(coord)
             for shape in shapes_for(n, tier, rng, 1 if quick else 2):
-                for view in views_for(shape, rng, 7 if quick else 14, 2 if quick else 4):
+                lad = quick and is_ladder(coord)
+                for view in views_for(shape, rng, 3 if lad else 7 if quick else 14, 1 if lad else 2 if quick else 4):
                     yield [coord, shape, view]
 
     def run_impl(self, case):
@@ -463,7 +705,8 @@ class Link(_DataFamily):
         for coord in coords_stream(tier, rng):
             n = coord_ndim(coord)
             for shape in shapes_for(n, tier, rng, 1 if quick else 2):
-                for view in views_for(shape, rng, 5 if quick else 10, 2 if quick else 4, masks=False):
+                lad = quick and is_ladder(coord)
+                for view in views_for(shape, rng, 2 if lad else 5 if quick else 10, 1 if lad else 2 if quick else 4, masks=False):
                     yield [coord, shape, view]
 
     def run_impl(self, case):
@@ -492,11 +735,12 @@ class Link(_DataFamily):
 PROP = Property(
     id="C15",
     title="World coordinates, their links and inverses agree with the coordinate object",
-    theorems=["C15.w2p_p2w", "C15.w2p_p2w_coord", "C15.inverse_le3", "C15.det_ne_zero_iff", "C15.mkAffine_wf", "C15.coupledAxes_closed", "C15.need_subset_dep", "C15.need_subset_dep_of_diag", "C15.world_eq_direct", "C15.world_eq_direct_partial", "C15.world_eq_direct_pinned_of_diag", "C15.w2p_shortcut", "C15.w2p_shortcut_partial", "C15.inverse_pattern_covered", "C15.links_eq_direct", "C15.link_p2w_eq_direct_partial", "C15.identity_coords", "C15.permuted_axes_wrong", "C15.triangular_inverse_wrong", "C15.chain_from_needed_wrong"],
+    theorems=["C15.w2p_p2w", "C15.w2p_p2w_coord", "C15.inverse_le3", "C15.det_ne_zero_iff", "C15.mkAffine_wf", "C15.coupledAxes_closed", "C15.need_subset_dep", "C15.need_subset_dep_of_diag", "C15.world_eq_direct", "C15.world_eq_direct_partial", "C15.world_eq_direct_pinned_of_diag", "C15.w2p_shortcut", "C15.w2p_shortcut_partial", "C15.inverse_pattern_covered", "C15.corr_matrix_exact", "C15.dep_scale_invariant", "C15.links_eq_direct", "C15.link_p2w_eq_direct_partial", "C15.identity_coords", "C15.permuted_axes_wrong", "C15.triangular_inverse_wrong", "C15.chain_from_needed_wrong"],
     families=[Xform(), World(), Link()],
-    trusted_base=["numpy matmul / linalg.inv on doubles (exact on the dyadic inputs generated; inverse within 1e-9, snapped to the nearest rational with denominator <= 20000 in Python before sending)",
+    trusted_base=["IEEE binary64 arithmetic of numpy matmul (any summation order, with or without FMA) and of LAPACK gesv behind np.linalg.inv: doubles are sent to Lean as exact rationals and accepted by rules computed by the Lean driver from the exact case (lean/GlueVerif/Model/C15Float.lean): forward values exact whenever all partial sums are representable, else within (n+2) 2^-53 sum|terms|; inverse values within 32 * 2^-53 * |N| W |N| |y| (first-order Higham bound for Gaussian elimination with partial pivoting, W = P^T|L||U| computed exactly over Q on every near-tied pivot path; constant calibrated: worst observed 2.4 of 32). No absolute tolerance.",
                   "numpy meshgrid / unbroadcast / broadcast_arrays / broadcast_to / basic and advanced indexing are modelled by their value semantics (Model/Coords.lean: viewPoints, subst)"],
     assumptions=["astropy WCS objects are not modelled: only AffineCoordinates and IdentityCoordinates (the property's quantifier)",
+                 "matrices are generated only if float64 can invert them meaningfully: the driver's own round-trip tolerance at pixel (4,..,4) is <= 2^-8 pixel and all magnitudes (matrix, inverse, |N|W|N|) lie in [2^-1000, 2^1000]; the rung 2^-997 is only used in fixed structural roles (no random mixing: products of two such entries underflow)",
                  "views: None, Ellipsis, scalars, slices (any non-zero step), tuples of these not longer than ndim, tuples of ndim in-range non-negative integer index arrays, full-shape Boolean masks"],
-    rule="coordinates: identity 1-3 d, all 0/±1/2 matrices with non-zero determinant for n = 1, 2 (all of them) and n = 3 (hand-picked patterns + seeded sample), translations from a fixed set, seeded random dyadic matrices; shapes <= 3-d with sides <= 4 (5 thorough); views from the stated domain; non-trivial = affine coordinates (xform) / affine and >= 2-d (world, link)",
+    rule="coordinates: identity 1-3 d, all 0/±1/2 matrices with non-zero determinant for n = 1, 2 (all of them) and n = 3 (hand-picked patterns + seeded sample), translations from a fixed set, seeded random dyadic matrices; magnitude ladder 2^e, e in {-997,-100,-54,-40,-34,-33,-27,-24,-20,-17,-10,10,17,27,40,100} (1e-300 .. 1e30): every rung in every structural role (diagonal, permuted, triangular, coupled, block; one axis / all axes / one row / one column / one coupling at the rung) for n = 1..3 with offsets of 0, 3, 2^20, 2^31+1, 5*2^36 steps and an unrelated rung, plus seeded random matrices mixing 1-3 rungs (mantissas 1, 3, 5, 1+2^-30, 1+2^-52, 2-2^-52); shapes <= 3-d with sides <= 4 (5 thorough); views from the stated domain; non-trivial = affine coordinates (xform) / affine and >= 2-d (world, link)",
 )
